@@ -326,6 +326,19 @@ theorem sanityCheck_err (s : Scope) (p : Pattern) (hs : ScopeOK s) (hp : PatOK p
         · exact checkRefsDefined_err q (hs.2 q hterm) _ _ h3
         · exact checkDuplicates_err _ _ _ h
 
+/-! ## the executable decider used to judge the implementation agrees with the declarative judgement -/
+theorem boundB_iff (e : Event) (avail : List String) : boundB e avail = true ↔ Bound e avail := by
+  simp [boundB, Bound, List.all_eq_true]
+
+theorem patternScopedB_iff (p : Pattern) (avail : List String) : patternScopedB p avail = true ↔ PatternScoped p avail := by
+  unfold patternScopedB PatternScoped
+  cases p.kind <;> cases p.trigger <;> simp [boundB_iff]
+
+theorem wellScopedB_iff (s : Scope) (p : Pattern) : wellScopedB s p = true ↔ WellScoped s p := by
+  unfold wellScopedB WellScoped
+  simp only [Bool.and_eq_true, patternScopedB_iff]
+  cases ha : s.activator <;> cases ht : s.terminator <;> simp [boundB_iff, List.isEmpty_iff, List.eq_nil_iff_forall_not_mem, and_assoc]
+
 /-! ## non-vacuity: `after a as X until b {@X.f}: c as Y causes d {@X.f and @Y.f}` -/
 def refX : Expr := .field 1 (.var 64 "X") "f"
 def refY : Expr := .field 1 (.var 64 "Y") "f"
